@@ -621,3 +621,86 @@ pub fn v5_splice<const CASE: u8>() {
 // concrete shapes: Drain::move_tail + fill over the loop copies; not registered)
 vh!(v5_splice_to_end, 16, v5_splice::<2>());
 vh!(v5_splice_remove, 16, v5_splice::<3>());
+
+
+/// V6 — constructors that build a vector from other data: from_iter_in (exact and inexact size
+/// hints), the `vec!` macro forms, and drain_filter on u8 elements; concrete lengths, symbolic values.
+pub fn v6_misc<const CASE: u8>() {
+    let mut back = Backing::<304>([0u8; 304]);
+    unsafe {
+        let c = small_chunk::<1>(back.0.as_mut_ptr(), 256, 200);
+        let bump = mk_bump::<1>(c.footer, None);
+        let b: &Bump = &bump;
+        let e: [u8; 3] = kani::any();
+        let mut want = [0u8; 4];
+        let mut wn = 0usize;
+        let v: BVec<u8> = match CASE {
+            0 => {
+                want[..3].copy_from_slice(&e);
+                wn = 3;
+                BVec::from_iter_in(e, b)
+            }
+            1 => {
+                // inexact size hint (filter): every element with the low bit set
+                let mut k = 0;
+                while k < 3 {
+                    if e[k] & 1 == 1 {
+                        want[wn] = e[k];
+                        wn += 1;
+                    }
+                    k += 1;
+                }
+                BVec::from_iter_in(e.into_iter().filter(|x| x & 1 == 1), b)
+            }
+            2 => {
+                want[..3].copy_from_slice(&e);
+                wn = 3;
+                crate::vec![in b; e[0], e[1], e[2]]
+            }
+            3 => {
+                want = [e[0]; 4];
+                wn = 4;
+                crate::vec![in b; e[0]; 4]
+            }
+            _ => {
+                let mut v = crate::vec![in b; e[0], e[1], e[2]];
+                let mask: u8 = kani::any();
+                let mut got = [0u8; 3];
+                let mut gn = 0;
+                {
+                    let it = v.drain_filter(|x| (mask >> (*x & 7)) & 1 == 1);
+                    for x in it {
+                        got[gn] = x;
+                        gn += 1;
+                    }
+                }
+                let mut k = 0;
+                let mut gi = 0;
+                while k < 3 {
+                    if (mask >> (e[k] & 7)) & 1 == 1 {
+                        vassert!(gi < gn && got[gi] == e[k], "NEVER: [C13] drain_filter yielded different items than std");
+                        gi += 1;
+                    } else {
+                        want[wn] = e[k];
+                        wn += 1;
+                    }
+                    k += 1;
+                }
+                vassert!(gi == gn, "NEVER: [C13] drain_filter yielded more items than std");
+                v
+            }
+        };
+        vassert!(v.len() == wn, "NEVER: [C13] length differs from std's");
+        vassert!(v.capacity() >= v.len(), "NEVER: [C13] capacity below length");
+        let k: usize = kani::any();
+        if k < wn && k < v.len() {
+            vassert!(v[k] == want[k], "NEVER: [C13] contents differ from std's");
+        }
+        kani::cover!(true, "REACH: end of harness");
+    }
+}
+vh!(v6_from_iter_exact, 8, v6_misc::<0>());
+vh!(v6_from_iter_filter, 8, v6_misc::<1>());
+vh!(v6_vec_macro_list, 8, v6_misc::<2>());
+vh!(v6_vec_macro_repeat, 8, v6_misc::<3>());
+vh!(v6_drain_filter, 8, v6_misc::<4>());
